@@ -15,6 +15,56 @@ func init() {
 	verifRegister("verifC02Index", verifC02Index)
 	verifRegister("verifC02MapObject", verifC02MapObject)
 	verifRegister("verifC02Set", verifC02Set)
+	verifRegister("verifC02SetColliding", verifC02SetColliding)
+}
+
+// verifC02SetColliding: sets whose distinct members share one hash bucket (numbers that agree in their first ten
+// significant digits hash alike; lists of such numbers too): length, membership and iteration count every member.
+func verifC02SetColliding() {
+	n := 1 + vChoice("n", 3)
+	wrap := vChoice("wrap", 2) == 1
+	ks := make([]int64, n)
+	members := make([]Value, n)
+	for i := range members {
+		ks[i] = int64(vChoice("m", 3))
+		var v Value
+		switch ks[i] {
+		case 0:
+			v = NumberIntVal(12345678901)
+		case 1:
+			v = NumberIntVal(12345678902)
+		default:
+			v = NumberIntVal(12345678903)
+		}
+		if wrap {
+			v = ListVal([]Value{v})
+		}
+		members[i] = v
+	}
+	s := SetVal(members)
+	distinct := 0
+	for i := 0; i < n; i++ {
+		dup := false
+		for j := 0; j < i; j++ {
+			if ks[j] == ks[i] {
+				dup = true
+			}
+		}
+		if !dup {
+			distinct++
+		}
+	}
+	vAssert("colliding-set-length", s.LengthInt() == distinct && c02IsNum(s.Length(), int64(distinct), 1))
+	vAssert("colliding-set-slice", len(s.AsValueSlice()) == distinct)
+	for i := range members {
+		vAssert("colliding-set-has-member", c02IsBool(s.HasElement(members[i]), true))
+	}
+	it := 0
+	for e := s.ElementIterator(); e.Next(); {
+		it++
+	}
+	vAssert("colliding-set-iterates-every-member", it == distinct)
+	vReach("end")
 }
 
 const c02Range = 1 << 30
